@@ -10,7 +10,8 @@ VARIABLE x
 Around(k) == IF k < 3 THEN {<<1>> \o t : t \in BitStr(k)}
              ELSE {<<1>> \o [i \in 1..(k - 3) |-> f] \o t : f \in {0, 1}, t \in BitStr(3)}
 Bounds(b) == {<<>>, b, Bin(3), <<1>> \o [i \in 1..30 |-> 1]}
-Init == \/ \E s \in BitStrUpTo(StrLen) : x = [kind |-> "str", s |-> s, maxb |-> 32, bound |-> <<>>]
+\* (length by length: TLC refuses to build a single set of more than a million strings)
+Init == \/ \E k \in 0..StrLen : \E s \in BitStr(k) : x = [kind |-> "str", s |-> s, maxb |-> 32, bound |-> <<>>]
         \/ \E n \in 1..SmallMax : x = [kind |-> "num", b |-> Bin(n), maxb |-> 32, bound |-> <<>>]
         \/ \E k \in 0..40 : \E b \in Around(k) : \E mb \in {8, 16, 32} : \E bd \in Bounds(b) :
              x = [kind |-> "num", b |-> b, maxb |-> mb, bound |-> bd]
